@@ -107,6 +107,20 @@ Fixpoint dels (z : zone) (rs : list rr) : option zone :=
               end
   end.
 
+Lemma quiet_adds : forall rs z, Forall plain rs -> quiet z -> quiet (adds z rs).
+Proof.
+  induction rs as [|r rs IH]; intros z Hf Hq; cbn [adds]; [exact Hq|].
+  inversion Hf; subst. apply IH; [assumption|]. apply quiet_zput; [exact Hq|]. rewrite rkey_kind. apply H1.
+Qed.
+
+Lemma quiet_dels : forall rs z z', dels z rs = Some z' -> quiet z -> quiet z'.
+Proof.
+  induction rs as [|r rs IH]; intros z z' Hd Hq; cbn [dels] in Hd; [inversion Hd; subst; exact Hq|].
+  destruct (del1 (look z (rkey r)) (r_data r)) as [oe|] eqn:E; [|discriminate].
+  apply (IH _ _ Hd). apply quiet_zset; [exact Hq|].
+  unfold del1 in E. destruct (look z (rkey r)); [discriminate|discriminate].
+Qed.
+
 Lemma adds_app : forall a b z, adds z (a ++ b) = adds (adds z a) b.
 Proof. induction a as [|r a IH]; intros b z; cbn [adds app]; [reflexivity|apply IH]. Qed.
 
